@@ -109,6 +109,8 @@ def run_shard(shard, ctx):
                 if st in ('timeout', 'raised'):
                     continue
                 ctx.count('generic_' + op)
+                if ctx.rng.random() < 0.12:
+                    ops.check_special_values(ctx, alg, iso, cfg, op, keysets, cid, timeout=to)
                 if cfg.get('opts', {}).get('cse') is False:
                     ctx.count('cse_false_cases')
                 if cfg.get('opts', {}).get('graded'):
